@@ -143,6 +143,22 @@ func c17Gen(t *rapid.T) c17Case {
 				continue
 			}
 			cs.Reqs = append(cs.Reqs, Req{Name: Bin("get"), Args: []Bin{key}})
+		case 5:
+			// a split MGET whose fragment replies are each within the limit while the merged reply is not
+			// (or, with the smaller share, just is): the limit applies to what the client would get
+			if limit >= 200 {
+				share := rapid.SampledFrom([]int{30, 45, 55, 70, 95}).Draw(t, "share")
+				nk := rapid.IntRange(2, 3).Draw(t, "mgetkeys")
+				r := Req{Name: genCaseName("mget").Draw(t, "cased")}
+				for k := 0; k < nk; k++ {
+					kk := keyFor(defaultSlots[(ri*3+k*4)%12], 0, ri, k)
+					r.Args = append(r.Args, kk)
+					c.Spec.Values = append(c.Spec.Values, Value{Key: kk, Val: Bin(bytes.Repeat([]byte("m"), eff*share/100/nk*2-rapid.IntRange(0, 12).Draw(t, "trim")))})
+				}
+				cs.Reqs = append(cs.Reqs, r)
+				continue
+			}
+			cs.Reqs = append(cs.Reqs, Req{Name: Bin("get"), Args: []Bin{key}})
 		case 3: // a plain served neighbour
 			cs.Reqs = append(cs.Reqs, Req{Name: genCaseName("get").Draw(t, "cased"), Args: []Bin{key}})
 		default:
